@@ -81,6 +81,59 @@ Definition named (me : N) (prev : uobs) (o : uop) : option (list (N * N * N)) :=
   | UMSwap (MUserDone id _) => match find_ms prev id with Some r => Some (ms_keys me r) | None => Some [] end
   | _ => None
   end.
+(* ... and by exactly the operation's amounts: the moves an operation makes, from the operation and the
+   implementation's own previous state *)
+Definition sdirect (r : swaprec) : bool := N.eqb (sw_sym r) (sw_from r).
+Definition sreverse (r : swaprec) : bool := N.eqb (sw_sym r) (sw_to r).
+Definition sown (r : swaprec) : bool := N.eqb (sw_creator r) (sw_owner r).
+Definition ms_moves (sign : Z) (key : asset -> N * N * N) (l : list asset) : list (N * N * N * Z) :=
+  List.map (fun a => (key a, sign * a_amt a)) l.
+Definition moves (me : N) (prev : uobs) (o : uop) : option (list (N * N * N * Z)) :=
+  match o with
+  | UBurn s a => Some [((KTok, s, 0%N), - a)]
+  | UEmitG _ to grp a => Some [((KTok, to, grp), a)]
+  | UForce _ kind from to tk a => Some [((kind, from, tk), - a); ((kind, to, tk), a)]
+  | UTok (OEmit _ to a) => Some [((KTok, to, 0%N), a)]
+  | USwap (SBegin s _ sym grp _ amt _) => Some [((if N.eqb sym me then (KTok, s, grp) else (KAllowed, s, tk_enc sym grp)), - amt)]
+  | USwap (SAnswer _ r) => Some (if sdirect r then [] else [((KGiven, sw_from r, 0%N), - sw_amt r)])
+  | USwap (SCancel id) =>
+    match find_sw prev id with
+    | Some r => Some (if sown r && sdirect r then [((KTok, sw_owner r, sw_grp r), sw_amt r)]
+                      else if sown r && sreverse r then [((KAllowed, sw_owner r, tk_enc (sw_sym r) (sw_grp r)), sw_amt r)]
+                      else if N.eqb (sw_creator r) 0 && sreverse r then [((KGiven, sw_from r, 0%N), sw_amt r)] else [])
+    | None => Some []
+    end
+  | USwap (SRobotDone id _) =>
+    match find_sw prev id with Some r => Some (if sdirect r then [((KGiven, sw_to r, 0%N), sw_amt r)] else []) | None => Some [] end
+  | USwap (SUserDone id _) =>
+    match find_sw prev id with
+    | Some r => Some (if sdirect r then [((KAllowed, sw_owner r, tk_enc (sw_sym r) (sw_grp r)), sw_amt r)] else [((KTok, sw_owner r, 0%N), sw_amt r)])
+    | None => Some []
+    end
+  | UMSwap (MBegin _ s _ sym assets to _) =>
+    Some (ms_moves (-1) (if N.eqb sym me then tok_key s else alw_key s) assets)
+  | UMSwap (MAnswer _ _ r) => Some (if mdirect r then [] else ms_moves (-1) (giv_key (mw_from r)) (mw_assets r))
+  | UMSwap (MCancel _ _ id) =>
+    match find_ms prev id with
+    | Some r => Some (if mown r && mdirect r then ms_moves 1 (tok_key (mw_owner r)) (mw_assets r)
+                      else if mown r && mreverse r then ms_moves 1 (alw_key (mw_owner r)) (mw_assets r)
+                      else if N.eqb (mw_creator r) 0 && mreverse r then ms_moves 1 (giv_key (mw_from r)) (mw_assets r) else [])
+    | None => Some []
+    end
+  | UMSwap (MRobotDone id _) =>
+    match find_ms prev id with Some r => Some (if mdirect r then ms_moves 1 (giv_key (mw_to r)) (mw_assets r) else []) | None => Some [] end
+  | UMSwap (MUserDone id _) =>
+    match find_ms prev id with
+    | Some r => Some (if mdirect r then ms_moves 1 (alw_key (mw_owner r)) (mw_assets r) else ms_moves 1 (tok_key (mw_owner r)) (mw_assets r))
+    | None => Some []
+    end
+  | _ => None
+  end.
+Definition exact_moves (prev ob : uobs) (mv : list (N * N * N * Z)) : bool :=
+  forallb (fun p => bget (list_to_map (uo_bal ob)) (fst p) - bget (list_to_map (uo_bal prev)) (fst p) =?
+                    fold_right (fun m acc => (if bool_decide (fst m = fst p) then snd m else 0) + acc) 0 mv)
+          (uo_bal prev ++ uo_bal ob ++ mv).
+
 Definition only_named (prev ob : uobs) (keys : list (N * N * N)) : bool :=
   forallb (fun p => existsb (fun k => bool_decide (k = fst p)) keys ||
                     (bget (list_to_map (uo_bal ob)) (fst p) =? bget (list_to_map (uo_bal prev)) (fst p))) (uo_bal prev ++ uo_bal ob).
@@ -91,7 +144,8 @@ Fixpoint p_run (me : N) (prev : uobs) (os : list uop) (steps : list (option err 
     forallb (fun p => 0 <=? snd p) (uo_bal ob) &&                      (* no balance negative *)
     (o_units me ob =? uo_emission ob) &&                              (* units = recorded total emission *)
     (match e with Some EPanic => false | Some _ => same_obs prev ob     (* a failed operation changes nothing *)
-     | None => match named me prev o with Some ks => only_named prev ob ks | None => true end end) &&   (* exactly the named balances *)
+     | None => match named me prev o with Some ks => only_named prev ob ks | None => true end &&   (* exactly the named balances *)
+               match moves me prev o with Some mv => exact_moves prev ob mv | None => true end end) &&   (* by exactly the amounts *)
     p_run me ob r t
   | _, _ => true
   end.
